@@ -107,7 +107,7 @@ func runFull(cfg *vh.Config, res *vh.Result, caseNo *int, texts []string, how []
 	}
 	var idx []int
 	for i, src := range texts {
-		if len(src) <= 2500 && !strings.HasPrefix(how[i], "j5sgen") {
+		if len(src) <= 1800 && !strings.HasPrefix(how[i], "j5sgen") {
 			idx = append(idx, i)
 		}
 	}
@@ -166,7 +166,7 @@ func runWalk(cfg *vh.Config, res *vh.Result, caseNo *int, texts []string, how []
 		switch {
 		case o.Panic != "":
 			res.Fail(vh.Failure{Case: *caseNo, Stream: "walk", Sig: "C07 front end (parse + walk): panic " + errClass(o.Panic), Clause: "never panics", Input: in, Got: o.Panic})
-		case len(src) > 2500:
+		case len(src) > 1800:
 			res.Count("walk_skipped_long")
 		case o.HasFile:
 			res.Count("walk_file")
